@@ -53,7 +53,12 @@ fn main() {
         let fs: Vec<String> = rr.failures.iter().take(6).map(|f| obj(&[("kind", esc(f.kind)), ("tags", strs(&f.tags.iter().map(|t| t.to_string()).collect::<Vec<_>>())), ("step", f.step.to_string()), ("op", esc(&f.op)), ("detail", esc(&f.detail))])).collect();
         let mut executed = small.clone();
         executed.ops = rr.executed.clone();
-        failures_json.push(obj(&[("origin", esc(origin)), ("kind", esc(kind)), ("tags", strs(&f.tags.iter().map(|t| t.to_string()).collect::<Vec<_>>())),
+        // all properties implicated by oracle failures of the minimised case
+        let mut all_tags: Vec<String> = vec![];
+        for ff in rr.failures.iter().filter(|x| x.kind == "oracle") { for t in &ff.tags { if !all_tags.contains(&t.to_string()) { all_tags.push(t.to_string()); } } }
+        if all_tags.is_empty() { all_tags = f.tags.iter().map(|t| t.to_string()).collect(); }
+        let kind = if rr.failures.iter().any(|x| x.kind == "oracle") { "oracle" } else { kind };
+        failures_json.push(obj(&[("origin", esc(origin)), ("kind", esc(kind)), ("tags", strs(&all_tags)),
             ("case", esc(&executed.text())), ("failures", arr(&fs))]));
     };
 
